@@ -579,6 +579,38 @@ func (c *Ctx) checkMockCode(rel string) {
 			}
 		}
 	}
+	// or the loop is driven by the length itself: for len(dist) < CodeLen { dist = "0" + dist } — one character per
+	// iteration in front of the phone number, until the length is CodeLen
+	for _, t := range traces {
+		if t.End != EndCut {
+			continue
+		}
+		for _, e := range t.Events {
+			if e.Kind != EvBranch || !e.Gen || e.Cond.Kind != KBin || e.Cond.Op != token.LSS || !strings.Contains(e.Cond.Args[1].Key(), ".CodeLen") {
+				continue
+			}
+			l := e.Cond.Args[0]
+			if l.Kind != KOp || l.Name != "len" || len(l.Args) != 1 || l.Args[0].Kind != KFresh || l.Args[0].Name != "loop" {
+				continue
+			}
+			for _, ps := range t.Cut {
+				if ps.Cur.Key() != l.Args[0].Key() {
+					continue
+				}
+				nx := ps.Next
+				if nx.Kind == KBin && nx.Op == token.ADD && nx.Args[1].Key() == ps.Cur.Key() {
+					if pad, isS := constStr(nx.Args[0]); isS && len(pad) == 1 {
+						loops++
+						continue
+					}
+				}
+				if ok {
+					ok = false
+					c.violated("C19.mock-code", cons, e.Pos, "the padding loop does not put exactly one character in front of the number per iteration ("+c.short(nx.Key())+"): the mock code does not end up CodeLen characters long with the phone number at its end", c.witness(t, len(t.Events)-1)...)
+				}
+			}
+		}
+	}
 	// the padding may also be produced at once: strings.Repeat("0", CodeLen-len(phone)) + phone
 	for _, t := range traces {
 		if t.End != EndReturn || len(t.Ret) != 1 {
